@@ -27,7 +27,8 @@ Verdict(tr) ==
       textEvs == SelectSeq(tr, LAMBDA r : IsEv(r, {"text"}))
       perrs == { i \in 1..n : IsEv(tr[i], {"protocol_error"}) }
       utf8bad == ref.viol # 0 /\ ref.why \in {"invalid_utf8", "close_reason_utf8"}
-      D == IF ref.why = "invalid_utf8" THEN DeadOffset(fs, ref.viol) ELSE fs[ref.viol].end - 1
+      \* (with permessage-deflate negotiated a text message is judged once it is complete: Ref then reports its final frame)
+      D == IF ref.why = "invalid_utf8" /\ ~cfg.compress THEN DeadOffset(fs, ref.viol) ELSE fs[ref.viol].end - 1
       arrived == utf8bad /\ delivered > D
       \* position of the read that delivered the offending byte
       R == IF arrived THEN CHOOSE i \in 1..n : tr[i].k = "rd" /\ tr[i].what = "data" /\ tr[i].fpos > D
